@@ -11,6 +11,16 @@ import (
 // Key universe of the gossip harnesses: K user keys plus the two internal keys.
 var vUserKeys = []string{"k0", "k1", "k2", "k3"}
 
+// vValueFor, when set, generates the symbolic value of a user key (used by
+// harnesses whose keys carry structured values, e.g. endpoint counts).
+var vValueFor func(pfx, key string) string
+
+// vSkipKeys lists keys that no built state contains (bound reduction).
+var vSkipKeys = map[string]bool{}
+
+// vDeletable, when set, tells which user keys the owner ever deletes.
+var vDeletable func(key string) bool
+
 func vKeys(K int) []string {
 	ks := append([]string(nil), vUserKeys[:K]...)
 	return append(ks, leftKey, compactKey)
@@ -59,6 +69,9 @@ func vBuildNode(pfx, id string, K int) (*nodeState, uint64) {
 	v.Assume(n.Version < 1<<62)
 	var c uint64
 	for _, key := range vKeys(K) {
+		if vSkipKeys[key] {
+			continue // reduced bound: this key is absent in every built state
+		}
 		if v.Choose(pfx+"."+key+".present", 2) == 0 {
 			continue
 		}
@@ -71,8 +84,18 @@ func vBuildNode(pfx, id string, K int) (*nodeState, uint64) {
 			c = v.U64(pfx + ".compact.c")
 			e.Value = v.Dec(c)
 		default:
-			e.Deleted = v.Bool(pfx + "." + key + ".del")
-			e.Value = v.Str(pfx + "." + key + ".val")
+			if vValueFor != nil {
+				// structured values: the deletion flag is a concrete fork so
+				// that the value keeps its structure (decimal(n), ...)
+				if (vDeletable == nil || vDeletable(key)) && v.Choose(pfx+"."+key+".del", 2) == 1 {
+					e.Deleted = true
+				} else {
+					e.Value = vValueFor(pfx, key)
+				}
+			} else {
+				e.Deleted = v.Bool(pfx + "." + key + ".del")
+				e.Value = v.Str(pfx + "." + key + ".val")
+			}
 		}
 		n.Entries[key] = e
 	}
